@@ -1,2 +1,215 @@
+"""Contracts of the grammar functions (grammar.rs, grammar/{statement,value,type}.rs).
+
+Every grammar function gets the same frame, instantiated from a small table:
+
+  requires  inv(false) of the parser, an open node (so that finish_node is legal)
+  ensures   inv_s (C01,C02), inv_t (C01: tiling preserved), same_shape (builder balanced:
+            parents stack unchanged, children only added), fuel' <= fuel (C02)
+  decreases (old(p).fuel(), RANK)   -- lexicographic; RANK orders calls made without
+                                       consuming a token (computed once from the call graph,
+                                       then fixed here)
+`strict` functions additionally require a look-ahead kind and ensure fuel' < fuel; that is
+what closes the recursion value -> ... -> value and statement -> ... -> statement.
+"""
+from splice import C
+
+BOTH = 'C01 C02'
+
+RANK = {'statement::include': 0, 'statement::r#assert': 1, 'statement::class': 2, 'statement::def': 3, 'statement::defm': 4,
+        'statement::defset': 5, 'statement::defvar': 6, 'statement::dump': 7, 'statement::foreach': 8, 'statement::r#if': 9,
+        'statement::r#let': 10, 'statement::multi_class': 11, 'statement::statement': 12, 'statement::statement_list': 13,
+        'source_file': 14, 'delimited': 15, 'value::integer': 16, 'value::string': 17, 'value::code': 18, 'value::boolean': 19,
+        'value::uninitialized': 20, 'value::value_list': 21, 'value::bits': 22, 'r#type::bit_type': 23, 'r#type::int_type': 24,
+        'r#type::string_type': 25, 'r#type::dag_type': 26, 'r#type::bits_type': 27, 'r#type::list_type': 28, 'r#type::code_type': 29,
+        'value::identifier': 30, 'r#type::class_id': 31, 'r#type::r#type': 32, 'value::list': 33, 'value::dag': 34,
+        'value::identifier_or_class_value': 35, 'value::bang_operator': 36, 'value::cond_operator': 37, 'value::simple_value': 38,
+        'value::range_suffix': 39, 'value::slice_suffix': 40, 'value::field_suffix': 41, 'value::value_suffix': 42,
+        'value::inner_name_value': 43, 'value::name_value': 44, 'value::opt_name_value': 45, 'statement::object_name': 46,
+        'value::range_piece': 47, 'value::range_list': 48, 'value::inner_value': 49, 'value::value': 50, 'statement::let_item': 51,
+        'statement::let_list': 52, 'statement::multi_class_statement': 53, 'statement::multi_class_statements': 54,
+        'statement::foreach_iterator_init': 55, 'statement::foreach_iterator': 56, 'statement::template_arg_decl': 57,
+        'statement::template_arg_list': 58, 'statement::opt_template_arg_list': 59, 'statement::positional_arg_value': 60,
+        'statement::named_arg_value': 61, 'statement::arg_value': 62, 'statement::arg_value_list': 63, 'statement::class_ref': 64,
+        'statement::parent_class_list': 65, 'statement::field_def': 66, 'statement::field_let': 67, 'statement::body_item': 68,
+        'statement::body': 69, 'statement::record_body': 70, 'value::opt_value': 71, 'value::slice_element': 72,
+        'value::slice_elements': 73, 'value::var_name': 74, 'value::dagarg': 75, 'value::dagarg_list': 76, 'value::cond_clause': 77}
+
+FILES = {'': 'grammar.rs', 'statement': 'grammar/statement.rs', 'value': 'grammar/value.rs', 'r#type': 'grammar/type.rs'}
+
+REQ = [C('old(p).inv(false)', BOTH), C('old(p).open_node()', BOTH, name='called inside an open node')]
+ENS = [C('final(p).inv_s(false)', BOTH, name='parser invariant preserved'),
+       C('final(p).inv_t(false)', 'C01', name='tiling preserved: builder text == input prefix before the look-ahead'),
+       C('final(p).same_shape(old(p))', BOTH, name='builder balanced: every start_node has its finish_node'),
+       C('final(p).fuel() <= old(p).fuel()', 'C02', name='never un-consumes input')]
+LT = C('final(p).fuel() < old(p).fuel()', 'C02', name='consumes at least one token')
+
+
+def KW(k):
+    return 'crate::token_kind::TokenKind::' + k
+
+
+def node_loop(extra=()):
+    return dict(invariant=['p.inv(false)', 'p.in_node(old(p))', 'p.fuel() <= old(p).fuel()'] + list(extra), decreases='p.fuel()')
+
+
+def flat_loop(extra=()):
+    return dict(invariant=['p.inv(false)', 'p.open_node()', 'p.same_shape(old(p))', 'p.fuel() <= old(p).fuel()'] + list(extra), decreases='p.fuel()')
+
+
 def add(U):
-    pass
+    U.append('parser.rs', '''
+impl<T: TokenStream> ParserBase<T> {
+    /// loop-invariant shape inside a grammar function that has opened its node
+    pub open spec fn in_node(&self, o: &Self) -> bool {
+        self.bv().parents =~= o.bv().parents.push(o.bv().n) && self.bv().n >= o.bv().n && self.srcv() == o.srcv()
+        && self.bnd() == o.bnd()
+    }
+}
+pub open spec fn is_type_first(k: TokenKind) -> bool {
+    k == TokenKind::Bit || k == TokenKind::Int || k == TokenKind::String || k == TokenKind::Dag
+    || k == TokenKind::Bits || k == TokenKind::List || k == TokenKind::Code || k == TokenKind::Id
+}
+''')
+
+    for f in ('grammar.rs', 'grammar/statement.rs', 'grammar/value.rs', 'grammar/type.rs'):
+        U.prepend(f, 'broadcast use {ax_msg_str};')
+
+    def g(mod, name, strict=None, req=(), ens=(), loops=None, closures=None, prologue=None, lt_if=None, ret_ens=(), body_proofs=None):
+        key = (mod + '::' if mod else '') + name
+        r = list(REQ) + [C(x, 'C02') if isinstance(x, str) else x for x in req]
+        e = list(ENS) + list(ens) + list(ret_ens)
+        if strict is not None:
+            if isinstance(strict, str):
+                r.append(C('old(p).cur() == %s' % KW(strict), 'C02', name='look-ahead is ' + strict))
+            else:
+                r.append(C(' || '.join('old(p).cur() == %s' % KW(k) for k in strict), 'C02'))
+            e.append(LT)
+        if lt_if:
+            e.append(C('%s ==> final(p).fuel() < old(p).fuel()' % lt_if, 'C02', name='consumes when ' + lt_if))
+        U.fn(FILES[mod], name, requires=r, ensures=e, decreases='old(p).fuel(), %dnat' % RANK[key],
+             loops=loops or {}, closures=closures or {}, prologue=prologue, body_proofs=body_proofs or [])
+
+    # closure contract used with delimited(): may only be called with less fuel than the enclosing function had
+    def clos():
+        return {0: dict(params='p: &mut Parser',
+                        requires=['old(p).inv(false)', 'old(p).open_node()', 'old(p).fuel() < f0'],
+                        ensures=['final(p).inv(false)', 'final(p).same_shape(old(p))', 'final(p).fuel() <= old(p).fuel()'])}
+    F0 = 'let ghost f0 = p.fuel();'
+
+    # ---------------- grammar.rs
+    g('', 'source_file',
+      req=[C('old(p).bv().parents.len() == 0 && old(p).bv().n == 0', BOTH)],
+      ens=[C('final(p).bv().parents.len() == 0 && final(p).bv().n == 1', BOTH, name='exactly one root node is built'),
+           C('final(p).srcv() == old(p).srcv() && final(p).bnd() == old(p).bnd()', BOTH),
+           C('final(p).cur() == crate::token_kind::TokenKind::Eof', 'C01', name='source_file stops only at end of input')])
+    U.fns[('grammar.rs', 'source_file')].requires = [c for c in U.fns[('grammar.rs', 'source_file')].requires if 'open_node' not in c.text]
+    U.fns[('grammar.rs', 'source_file')].ensures = [c for c in U.fns[('grammar.rs', 'source_file')].ensures if 'same_shape' not in c.text]
+    DEL_Q = ('forall|q: &mut Parser| #![trigger parser.requires((q,))] (*q).inv(false) && (*q).open_node() && (*q).srcv() == old(p).srcv() '
+             '&& (*q).bnd() == old(p).bnd() && (*q).fuel() <= old(p).fuel() '
+             '&& (old(p).cur() == bra && bra != crate::token_kind::TokenKind::Eof ==> (*q).fuel() < old(p).fuel()) ==> parser.requires((q,))')
+    DEL_E = ('forall|q: &mut Parser, r: ()| #![trigger parser.ensures((q,), r)] parser.ensures((q,), r) ==> '
+             'final(q).inv(false) && final(q).same_shape(&*q) && final(q).fuel() <= (*q).fuel()')
+    g('', 'delimited',
+      req=[C('delim != crate::token_kind::TokenKind::Eof', 'C02', name='delimiter is a real token (loop progress)'),
+           C(DEL_Q, BOTH, name='element parser may be called on any smaller-or-equal state'),
+           C(DEL_E, BOTH, name='element parser preserves the invariant')],
+      lt_if='old(p).cur() == bra && bra != crate::token_kind::TokenKind::Eof',
+      loops={0: dict(invariant=['p.inv(false)', 'p.open_node()', 'p.same_shape(old(p))', 'p.fuel() <= old(p).fuel()',
+                                'delim != crate::token_kind::TokenKind::Eof',
+                                'old(p).cur() == bra && bra != crate::token_kind::TokenKind::Eof ==> p.fuel() < old(p).fuel()',
+                                DEL_Q, DEL_E],
+                     decreases='p.fuel()')})
+
+    # ---------------- statement.rs
+    S = 'statement'
+    top = ['!p.cur().spec_is_trivia()']
+    g(S, 'statement_list',
+      ens=[C('typ is TopLevel ==> final(p).cur() == crate::token_kind::TokenKind::Eof', BOTH, name='top level consumes the whole input')],
+      loops={0: node_loop(), 1: node_loop(), 2: node_loop()})
+    g(S, 'statement', lt_if='old(p).cur() != crate::token_kind::TokenKind::Eof')
+    g(S, 'include', strict='Include')
+    g(S, 'class', strict='Class')
+    g(S, 'def', strict='Def')
+    g(S, 'object_name')
+    g(S, 'r#let', strict='Let')
+    g(S, 'let_list', loops={0: node_loop()})
+    g(S, 'let_item')
+    g(S, 'multi_class', strict='MultiClass')
+    g(S, 'multi_class_statements', loops={0: node_loop()})
+    g(S, 'multi_class_statement', lt_if='old(p).cur() != crate::token_kind::TokenKind::Eof')
+    g(S, 'defm', strict='Defm')
+    g(S, 'defset', strict='Defset')
+    g(S, 'defvar', strict='Defvar')
+    g(S, 'dump', strict='Dump')
+    g(S, 'foreach', strict='Foreach')
+    g(S, 'foreach_iterator')
+    g(S, 'foreach_iterator_init')
+    g(S, 'r#if', strict='If')
+    g(S, 'r#assert', strict='Assert')
+    g(S, 'opt_template_arg_list')
+    g(S, 'template_arg_list', strict='Less')
+    g(S, 'template_arg_decl')
+    g(S, 'record_body')
+    g(S, 'parent_class_list', loops={0: node_loop()})
+    g(S, 'class_ref')
+    g(S, 'arg_value_list', loops={0: node_loop()})
+    g(S, 'arg_value')
+    CPREQ = [C('old(p).bv().parents.last() <= cp_val(checkpoint) <= old(p).bv().n', BOTH, name='checkpoint lies inside the open node')]
+    CPENS = [C('final(p).bv().n == cp_val(checkpoint) + 1', BOTH)]
+    g(S, 'positional_arg_value', req=CPREQ, ens=CPENS)
+    g(S, 'named_arg_value', req=CPREQ, ens=CPENS)
+    for nm in ('positional_arg_value', 'named_arg_value'):
+        fc = U.fns[(FILES[S], nm)]
+        fc.ensures = [c for c in fc.ensures if 'same_shape' not in c.text] + [
+            C('final(p).bv().parents =~= old(p).bv().parents && final(p).srcv() == old(p).srcv() && final(p).bnd() == old(p).bnd()', BOTH)]
+    g(S, 'body', loops={0: node_loop()})
+    g(S, 'body_item', lt_if='ret')
+    g(S, 'field_def', req=[C('crate::parser::is_type_first(old(p).cur()) || old(p).cur() == %s' % KW('Field'), 'C02')], ens=[LT])
+    g(S, 'field_let', strict='Let')
+
+    # ---------------- value.rs
+    V = 'value'
+    g(V, 'opt_value')
+    g(V, 'value', loops={0: node_loop()})
+    g(V, 'inner_value', loops={0: node_loop()})
+    g(V, 'opt_name_value')
+    g(V, 'name_value', loops={0: node_loop()})
+    g(V, 'inner_name_value', loops={0: node_loop()})
+    g(V, 'value_suffix', lt_if='ret')
+    g(V, 'range_suffix', strict='LBrace')
+    g(V, 'range_list', loops={0: node_loop()})
+    g(V, 'range_piece')
+    g(V, 'slice_suffix', strict='LSquare')
+    g(V, 'slice_elements', loops={0: node_loop()})
+    g(V, 'slice_element')
+    g(V, 'field_suffix', strict='Dot')
+    g(V, 'simple_value')
+    for nm, k in [('integer', None), ('code', 'CodeFragment'), ('uninitialized', 'Question'), ('var_name', 'VarName'), ('identifier', 'Id')]:
+        g(V, nm, lt_if=('old(p).cur() == %s' % KW(k)) if k else None)
+    g(V, 'boolean')
+    g(V, 'string', loops={0: node_loop()})
+    g(V, 'bits', strict='LBrace')
+    g(V, 'list', strict='LSquare')
+    g(V, 'value_list', req=[C('old(p).cur() == bra && bra != crate::token_kind::TokenKind::Eof', 'C02', name='value_list starts at its opening bracket')],
+      ens=[LT], closures=clos(), prologue=F0)
+    g(V, 'dag', strict='LParen')
+    g(V, 'dagarg_list', loops={0: node_loop()})
+    g(V, 'dagarg')
+    g(V, 'identifier_or_class_value', strict='Id',
+      body_proofs=[(r'p\.builder\(\)\.start_node_at', 'let ghost p0 = *p;'),
+                   (r'statement::arg_value_list\(p\);', 'proof { crate::parser::ParserBase::lemma_builder_start_node_at(&p0, &*p, cp_val(c)); }')])
+    g(V, 'bang_operator', closures=clos(), prologue=F0)
+    g(V, 'cond_operator', strict='XCond', closures=clos(), prologue=F0)
+    g(V, 'cond_clause')
+
+    # ---------------- type.rs
+    T = 'r#type'
+    g(T, 'r#type', lt_if='crate::parser::is_type_first(old(p).cur())')
+    g(T, 'bit_type', strict='Bit')
+    g(T, 'int_type', strict='Int')
+    g(T, 'string_type', strict='String')
+    g(T, 'dag_type', strict='Dag')
+    g(T, 'bits_type', strict='Bits')
+    g(T, 'list_type', strict='List')
+    g(T, 'class_id', lt_if='old(p).cur() == %s' % KW('Id'))
+    g(T, 'code_type', strict='Code')
